@@ -215,6 +215,7 @@ where
 
     // Track spawned hedge tasks
     let mut hedges_spawned: usize = 0;
+    let mut failures: usize = 0;
     let mut primary_error: Option<S::Error> = None;
 
     // Get delay for first hedge
@@ -256,12 +257,14 @@ where
                                 }
                                 Err(e) => {
                                     // Store error, continue waiting for other attempts
+                                    failures += 1;
                                     if attempt == 0 {
                                         primary_error = Some(e.clone());
                                     }
-                                    // Check if all attempts exhausted
-                                    if hedges_spawned + 1 >= max_attempts {
-                                        // All spawned, check if this was the last result
+                                    // Give up only when every attempt has been started
+                                    // and every one of them has reported a failure
+                                    if hedges_spawned + 1 >= max_attempts && failures >= max_attempts {
+                                        // All spawned and all failed
                                         config.listeners.emit(&HedgeEvent::AllFailed {
                                             name: config.name.clone(),
                                             attempts: hedges_spawned + 1,
